@@ -183,3 +183,145 @@ Proof.
   rewrite <- (decode_firstn K b') by (rewrite ?Hm; unfold K; lia).
   rewrite HK. reflexivity.
 Qed.
+
+(** * 3. Well-formed messages and [decode (encode_raw m) = ROk m] *)
+
+Definition wf_pi (p : port_identity) : Prop :=
+  0 <= pi_clock p < 18446744073709551616 /\ 0 <= pi_port p < 65536.
+Definition wf_ts (t : wire_ts) : Prop :=
+  0 <= ts_secs t < 281474976710656 /\ 0 <= ts_nanos t < 4294967296.
+Definition wf_header (h : header) : Prop :=
+  0 <= h_sdo_id h < 4096 /\ 0 <= h_version_major h < 16 /\ 0 <= h_version_minor h < 16 /\
+  0 <= h_domain h < 256 /\
+  - 9223372036854775808 <= h_correction h < 9223372036854775808 /\
+  wf_pi (h_source h) /\ 0 <= h_seq h < 65536 /\ -128 <= h_log_interval h < 128.
+Definition wf_cq (q : clock_quality) : Prop :=
+  0 <= cq_class q < 256 /\ 0 <= cq_accuracy q < 256 /\
+  canon_accuracy (cq_accuracy q) = cq_accuracy q /\ 0 <= cq_variance q < 65536.
+Definition wf_ann (a : announce_body) : Prop :=
+  wf_ts (an_origin a) /\ -32768 <= an_utc_offset a < 32768 /\ 0 <= an_prio1 a < 256 /\
+  wf_cq (an_quality a) /\ 0 <= an_prio2 a < 256 /\
+  0 <= an_gm_identity a < 18446744073709551616 /\
+  0 <= an_steps_removed a < 65536 /\ 0 <= an_time_source a < 256.
+Definition wf_body (b : body) : Prop :=
+  match b with
+  | BSync t | BDelayReq t | BPDelayReq t | BFollowUp t => wf_ts t
+  | BPDelayResp t p | BDelayResp t p | BPDelayRespFollowUp t p => wf_ts t /\ wf_pi p
+  | BAnnounce a => wf_ann a
+  | BSignaling p => wf_pi p
+  | BManagement p s h a => wf_pi p /\ 0 <= s < 256 /\ 0 <= h < 256 /\ 0 <= a <= 5
+  end.
+(** a valid TLV suffix: octets that the implementation's own TLV scanner accepts *)
+Definition wf_suffix (s : bytes) : Prop := bok s /\ decode_tlvset s = ROk s.
+Definition wf_msg (m : message) : Prop :=
+  wf_header (m_header m) /\ wf_body (m_body m) /\ wf_suffix (m_suffix m) /\ wire_size m < 65536.
+
+Lemma P8 : 256 ^ Z.of_nat 8 = 18446744073709551616. Proof. reflexivity. Qed.
+Lemma P6 : 256 ^ Z.of_nat 6 = 281474976710656. Proof. reflexivity. Qed.
+Lemma P4 : 256 ^ Z.of_nat 4 = 4294967296. Proof. reflexivity. Qed.
+Lemma P2 : 256 ^ Z.of_nat 2 = 65536. Proof. reflexivity. Qed.
+Lemma P1 : 256 ^ Z.of_nat 1 = 256. Proof. reflexivity. Qed.
+
+Lemma dec_enc_u n v : 0 <= v < 256 ^ Z.of_nat n -> be_decode (be_encode n v) = v.
+Proof. intros H. rewrite be_decode_encode. apply Z.mod_small; assumption. Qed.
+
+Lemma dec_enc_pi p r : wf_pi p -> dec_pi (enc_pi p ++ r) = p.
+Proof.
+  intros [Hc Hp]. destruct p as [c q]. unfold dec_pi, enc_pi. cbn [pi_clock pi_port] in *.
+  replace (slice 0 8 ((be_encode 8 c ++ be_encode 2 q) ++ r)) with (be_encode 8 c) by reflexivity.
+  replace (slice 8 2 ((be_encode 8 c ++ be_encode 2 q) ++ r)) with (be_encode 2 q) by reflexivity.
+  rewrite !dec_enc_u by (rewrite ?P8, ?P2; lia). reflexivity.
+Qed.
+Lemma dec_enc_pi0 p : wf_pi p -> dec_pi (enc_pi p) = p.
+Proof. intros H. rewrite <- (app_nil_r (enc_pi p)). apply dec_enc_pi; assumption. Qed.
+
+Lemma dec_enc_ts t r : wf_ts t -> dec_ts (enc_ts t ++ r) = t.
+Proof.
+  intros [Hs Hn]. destruct t as [s n]. unfold dec_ts, enc_ts. cbn [ts_secs ts_nanos] in *.
+  replace (slice 0 6 ((be_encode 6 s ++ be_encode 4 n) ++ r)) with (be_encode 6 s) by reflexivity.
+  replace (slice 6 4 ((be_encode 6 s ++ be_encode 4 n) ++ r)) with (be_encode 4 n) by reflexivity.
+  rewrite !dec_enc_u by (rewrite ?P6, ?P4; lia). reflexivity.
+Qed.
+
+Lemma encode_header_length h t n : length (encode_header h t n) = 34%nat.
+Proof. reflexivity. Qed.
+Lemma encode_body_length bd : Z.of_nat (length (encode_body bd)) = body_size bd.
+Proof. destruct bd; reflexivity. Qed.
+Lemma encode_raw_length m : blen (encode_raw m) = wire_size m.
+Proof.
+  unfold blen, encode_raw, wire_size. rewrite !app_length, encode_header_length.
+  rewrite !Nat2Z.inj_add, encode_body_length. unfold blen. lia.
+Qed.
+
+Definition flags0 (h : header) : Z :=
+  b2z (h_alternate_master h) + 2 * b2z (h_two_step h) + 4 * b2z (h_unicast h)
+  + 32 * b2z (h_profile1 h) + 64 * b2z (h_profile2 h).
+Definition flags1 (h : header) : Z :=
+  b2z (h_leap61 h) + 2 * b2z (h_leap59 h) + 4 * b2z (h_utc_valid h)
+  + 8 * b2z (h_ptp_timescale h) + 16 * b2z (h_time_traceable h)
+  + 32 * b2z (h_freq_traceable h) + 64 * b2z (h_sync_uncertain h).
+
+(** the octets of an encoded header, by position (all by computation) *)
+Section EncodedHeader.
+  Variables (h : header) (t : msg_type) (n : Z) (r : bytes).
+  Let E := encode_header h t n ++ r.
+  Lemma E_b0 : byte_at 0 E = ((h_sdo_id h / 256) * 16) mod 256 + msg_type_code t. Proof. reflexivity. Qed.
+  Lemma E_b1 : byte_at 1 E = ((h_version_minor h * 16) mod 256) + h_version_major h. Proof. reflexivity. Qed.
+  Lemma E_len : slice 2 2 E = be_encode 2 (n + 34). Proof. reflexivity. Qed.
+  Lemma E_b4 : byte_at 4 E = h_domain h. Proof. reflexivity. Qed.
+  Lemma E_b5 : byte_at 5 E = h_sdo_id h mod 256. Proof. reflexivity. Qed.
+  Lemma E_b6 : byte_at 6 E = flags0 h. Proof. reflexivity. Qed.
+  Lemma E_b7 : byte_at 7 E = flags1 h. Proof. reflexivity. Qed.
+  Lemma E_corr : slice 8 8 E = be_encode 8 (h_correction h). Proof. reflexivity. Qed.
+  Lemma E_mts : slice 16 4 E = [0; 0; 0; 0]. Proof. reflexivity. Qed.
+  Lemma E_src : slice 20 10 E = enc_pi (h_source h). Proof. reflexivity. Qed.
+  Lemma E_seq : slice 30 2 E = be_encode 2 (h_seq h). Proof. reflexivity. Qed.
+  Lemma E_b32 : byte_at 32 E = control_field t. Proof. reflexivity. Qed.
+  Lemma E_b33 : byte_at 33 E = h_log_interval h mod 256. Proof. reflexivity. Qed.
+End EncodedHeader.
+
+Lemma msg_type_code_range t : 0 <= msg_type_code t < 16.
+Proof. destruct t; cbn; lia. Qed.
+Lemma msg_type_of_code t : msg_type_of_nibble (msg_type_code t) = Some t.
+Proof. destruct t; reflexivity. Qed.
+Lemma msg_type_code_of v t : msg_type_of_nibble v = Some t -> v = msg_type_code t.
+Proof.
+  unfold msg_type_of_nibble.
+  repeat match goal with |- context [?a =? ?b] => destruct (Z.eqb_spec a b) end;
+    intros H; try discriminate; injection H as <-; cbn; assumption.
+Qed.
+
+Lemma hdr_of_encode h t n r :
+  wf_header h -> hdr_of (encode_header h t n ++ r) = h.
+Proof.
+  intros (Hsdo & Hmaj & Hmin & Hdom & Hcor & Hsrc & Hseq & Hlog).
+  unfold hdr_of.
+  rewrite E_b0, E_b1, E_b4, E_b5, E_b6, E_b7, E_corr, E_src, E_seq, E_b33.
+  pose proof (msg_type_code_range t) as Hc.
+  destruct h as [sdo maj mi dom f1 f2 f3 f4 f5 g1 g2 g3 g4 g5 g6 g7 corr src seq logi].
+  cbn [h_sdo_id h_version_major h_version_minor h_domain h_correction h_source h_seq h_log_interval] in *.
+  unfold flags0, flags1.
+  cbn [h_alternate_master h_two_step h_unicast h_profile1 h_profile2 h_leap61 h_leap59 h_utc_valid
+       h_ptp_timescale h_time_traceable h_freq_traceable h_sync_uncertain].
+  f_equal.
+  - lia.
+  - lia.
+  - lia.
+  - destruct f1, f2, f3, f4, f5; reflexivity.
+  - destruct f1, f2, f3, f4, f5; reflexivity.
+  - destruct f1, f2, f3, f4, f5; reflexivity.
+  - destruct f1, f2, f3, f4, f5; reflexivity.
+  - destruct f1, f2, f3, f4, f5; reflexivity.
+  - destruct g1, g2, g3, g4, g5, g6, g7; reflexivity.
+  - destruct g1, g2, g3, g4, g5, g6, g7; reflexivity.
+  - destruct g1, g2, g3, g4, g5, g6, g7; reflexivity.
+  - destruct g1, g2, g3, g4, g5, g6, g7; reflexivity.
+  - destruct g1, g2, g3, g4, g5, g6, g7; reflexivity.
+  - destruct g1, g2, g3, g4, g5, g6, g7; reflexivity.
+  - destruct g1, g2, g3, g4, g5, g6, g7; reflexivity.
+  - rewrite be_decode_encode. change (256 ^ Z.of_nat 8) with (2 ^ 64).
+    apply to_signed_mod; [lia|]. change (2 ^ (64 - 1)) with 9223372036854775808. lia.
+  - apply dec_enc_pi0; assumption.
+  - apply dec_enc_u. rewrite P2; lia.
+  - change 256 with (2 ^ 8). apply to_signed_mod; [lia|]. change (2 ^ (8 - 1)) with 128. lia.
+Qed.
